@@ -314,6 +314,23 @@ class _SymMath:
         return f
 
 
+class _ArbitraryConfig:
+    """Attributes are fresh real constants (cached per name): code that starts to read a configuration value the contract
+    does not mention sees an arbitrary one."""
+
+    def __init__(self, path):
+        object.__setattr__(self, "_path", path)
+        object.__setattr__(self, "_vals", {})
+
+    def __getattr__(self, name):
+        if name.startswith("__"):
+            raise AttributeError(name)
+        vals = object.__getattribute__(self, "_vals")
+        if name not in vals:
+            vals[name] = z3.Real(f"{object.__getattribute__(self, '_path')}.{name}")
+        return vals[name]
+
+
 class Lambda:
     def __init__(self, node, env, frame):
         self.node = node
@@ -972,6 +989,11 @@ class Interp:
             ok, v = obj._cls.find_attr(name)
             if ok:
                 return v
+            if name == "generator":
+                # the instance generator the environment was built with: a configuration object about which the contract
+                # says nothing, so every numeric attribute read from it is an ARBITRARY value (over-approximation)
+                obj._attrs[name] = _ArbitraryConfig(f"{obj._cls.name}.generator")
+                return obj._attrs[name]
             raise Unsupported(f"attribute {name} of {obj._cls.name} not declared by the contract")
         if isinstance(obj, ClassRef):
             r = obj.cls.find_method(name)
